@@ -331,12 +331,45 @@ func RepopulatePhysicalExpressionFunctions(expr physical.Expression) (physical.E
 				return expr
 			}
 
+			// The typechecker uses the last descriptor that accepts the arguments, so we do the same.
+			var matched *physical.FunctionDescriptor
 		descriptorLoop:
-			for _, descriptor := range details.Descriptors {
-				if len(descriptor.ArgumentTypes) != len(receivedDescriptor.ArgumentTypes) {
+			for i := range details.Descriptors {
+				descriptor := &details.Descriptors[i]
+				if descriptor.Strict != receivedDescriptor.Strict {
 					continue descriptorLoop
 				}
-				if descriptor.Strict != receivedDescriptor.Strict {
+				if descriptor.TypeFn != nil {
+					// Descriptors with a type function have no static signature to compare,
+					// they are matched the way the typechecker selected them: by the actual argument types.
+					if len(receivedDescriptor.ArgumentTypes) != 0 {
+						continue descriptorLoop
+					}
+					argTypes := make([]octosql.Type, len(expr.FunctionCall.Arguments))
+					expectedOutputNullable := false
+					for j := range expr.FunctionCall.Arguments {
+						argTypes[j] = expr.FunctionCall.Arguments[j].Type
+						if descriptor.Strict {
+							if octosql.Null.Is(argTypes[j]) == octosql.TypeRelationIs {
+								expectedOutputNullable = true
+							}
+							argTypes[j] = octosql.NonNullable(argTypes[j])
+						}
+					}
+					outputType, ok := descriptor.TypeFn(argTypes)
+					if !ok {
+						continue descriptorLoop
+					}
+					if expectedOutputNullable {
+						outputType = octosql.TypeSum(outputType, octosql.Null)
+					}
+					if !outputType.Equals(expr.Type) {
+						continue descriptorLoop
+					}
+					matched = descriptor
+					continue descriptorLoop
+				}
+				if len(descriptor.ArgumentTypes) != len(receivedDescriptor.ArgumentTypes) {
 					continue descriptorLoop
 				}
 				if !descriptor.OutputType.Equals(receivedDescriptor.OutputType) {
@@ -347,8 +380,11 @@ func RepopulatePhysicalExpressionFunctions(expr physical.Expression) (physical.E
 						continue descriptorLoop
 					}
 				}
-				expr.FunctionCall.FunctionDescriptor.TypeFn = descriptor.TypeFn
-				expr.FunctionCall.FunctionDescriptor.Function = descriptor.Function
+				matched = descriptor
+			}
+			if matched != nil {
+				expr.FunctionCall.FunctionDescriptor.TypeFn = matched.TypeFn
+				expr.FunctionCall.FunctionDescriptor.Function = matched.Function
 				return expr
 			}
 
